@@ -4,6 +4,9 @@
   The non-terminal clause is proved in Rl/Props/C18.lean (`C18_validator…`).
 -/
 import Rl.Editor
+import Rl.Lemmas.EditorM
+import Rl.Lemmas.EditorOps
+import Rl.Props.C03
 open Rl
 
 /-- The decision table: Enter submits only on a Valid verdict. -/
@@ -27,12 +30,196 @@ theorem C13_table_invalid_msg (aim atEnd : Bool) :
     acceptDecision aim false true atEnd = .stay := by
   unfold acceptDecision; simp
 
-/-- Full statement at the level of the editor step (work in progress, see DESIGN.md): if the Enter
-    command submits, the validator judged the buffer Valid and the buffer is what is returned. -/
+/-- Full statement at the level of the editor step: if the Enter command submits, the validator
+    judged the buffer Valid and the buffer is what is returned. -/
 def C13_submit_requires_valid_statement : Prop :=
   ∀ (S : Segmenter) (U : UData) (cfg : EdCfg) (aim : Bool) (s s' : Ed),
     execAccept S U cfg aim s = .ok (.submit, s') →
     s'.line = s.line ∧ (cfg.hasHelper = true → ∃ m, cfg.validator s.line.buf = .valid m)
+
+/-- helper: a submitting action means the verdict was Valid -/
+theorem C13_act_submit_valid (U : UData) (cfg : EdCfg) (aim : Bool) (s : Ed)
+    (h : acceptActOf U cfg aim s = .submit) :
+    (cfg.hasHelper = true → ∃ m, cfg.validator s.line.buf = .valid m) ∧
+    (aim = false → LB.isEndOfInput U s.line = true) := by
+  unfold acceptActOf at h
+  have hv := C13_table_submit _ _ _ _ h
+  constructor
+  · intro hh
+    unfold verdictOf at hv
+    rw [if_pos hh] at hv
+    cases hc : cfg.validator s.line.buf with
+    | valid m => exact ⟨m, rfl⟩
+    | _ => rw [hc] at hv; simp [Verdict.isValid] at hv
+  · intro ha
+    subst ha
+    unfold acceptDecision at h
+    cases he : LB.isEndOfInput U s.line with
+    | true => rfl
+    | false =>
+      rw [he] at h
+      cases hv1 : (verdictOf cfg s.line.buf).isValid <;> cases hv2 : (verdictOf cfg s.line.buf).hasMsg <;>
+        simp [hv1, hv2] at h
+
+/-- **Enter submits only what the validator accepted, unchanged** (the statement above, proved): the
+    line handed back is exactly the line that was validated, and the verdict on it was Valid. -/
+theorem C13_submit_requires_valid : C13_submit_requires_valid_statement := by
+  intro S U cfg aim s s' h
+  have hs := wp_ok (execAccept_spec S U cfg aim s) h
+  obtain ⟨_, _, _, _, _, hm⟩ := hs
+  cases ha : acceptActOf U cfg aim s with
+  | submit =>
+    rw [ha] at hm
+    exact ⟨hm.2, (C13_act_submit_valid U cfg aim s ha).1⟩
+  | insertNewline => rw [ha] at hm; exact absurd hm.1 (by decide)
+  | stay => rw [ha] at hm; exact absurd hm.1 (by decide)
+
+/-- The same for the whole `execute` step of the command bound to Enter / C-j / C-m (which first
+    clears hint and highlight from the display); without `accept_in_the_middle` the cursor was
+    moreover at the end of the input. -/
+theorem C13_execute_submit (S : Segmenter) (U : UData) (cfg : EdCfg) (aim : Bool) (s s' : Ed)
+    (h : execute S U cfg (.acceptOrInsertLine aim) s = .ok (.submit, s')) :
+    s'.line = s.line ∧ (cfg.hasHelper = true → ∃ m, cfg.validator s.line.buf = .valid m) ∧
+    (aim = false → LB.isEndOfInput U s.line = true) := by
+  rw [execute_acceptOrInsertLine] at h
+  have hw : wp (withPreAccept S U cfg (execAccept S U cfg aim))
+      (fun st s' => st = .submit → s'.line = s.line ∧ acceptActOf U cfg aim s = .submit) (fun _ _ => True) s := by
+    refine wp_withPreAccept S U cfg fun s1 hc => ?_
+    obtain ⟨hl, _⟩ := Ed.core_eq hc
+    refine wp_mono (execAccept_spec S U cfg aim s1) ?_ (fun _ _ _ => trivial)
+    intro st s2 ⟨_, _, _, _, _, hm⟩ hst
+    subst hst
+    have hact : acceptActOf U cfg aim s1 = acceptActOf U cfg aim s := by unfold acceptActOf; rw [hl]
+    cases ha : acceptActOf U cfg aim s1 with
+    | submit => rw [ha] at hm; exact ⟨hm.2.trans hl, hact ▸ ha⟩
+    | insertNewline => rw [ha] at hm; exact absurd hm.1 (by decide)
+    | stay => rw [ha] at hm; exact absurd hm.1 (by decide)
+  obtain ⟨h1, h2⟩ := wp_ok hw h rfl
+  exact ⟨h1, C13_act_submit_valid U cfg aim s h2⟩
+
+/-- what `execute (AcceptOrInsertLine aim)` does, by the action of the decision table; the last exit
+    is a helper's own panic (a hinter scripted to panic while the inserted line break is displayed) -/
+theorem C13_execute_by_action (S : Segmenter) (U : UData) (cfg : EdCfg) (aim : Bool) (s : Ed) :
+    wp (execute S U cfg (.acceptOrInsertLine aim))
+      (fun st s' =>
+        match acceptActOf U cfg aim s with
+        | .submit => st = .submit ∧ s'.line = s.line
+        | .insertNewline => st = .proceed ∧ ∃ r ns, LB.insert S U '\n' 1 s.line = .ok (r, s'.line, ns)
+        | .stay => st = .proceed ∧ s'.line = s.line)
+      (fun o s' => (s'.line = s.line ∧
+        ((o = .helperError ∧ cfg.hasHelper = true ∧ cfg.validator s.line.buf = .error) ∨
+         (o = .panic ∧ cfg.hasHelper = true ∧ cfg.validator s.line.buf = .panic) ∨
+         (o = .panic ∧ verdictOf cfg s.line.buf ≠ .error ∧ acceptActOf U cfg aim s = .insertNewline ∧
+           ∃ e, LB.insert S U '\n' 1 s.line = .error e))) ∨
+        (o = .panic ∧ cfg.hinterPanicAt ≠ none ∧ verdictOf cfg s.line.buf ≠ .error ∧
+          acceptActOf U cfg aim s = .insertNewline))
+      s := by
+  rw [execute_acceptOrInsertLine]
+  refine wp_withPreAccept S U cfg fun s1 hc => ?_
+  obtain ⟨hl, _⟩ := Ed.core_eq hc
+  have hact : acceptActOf U cfg aim s1 = acceptActOf U cfg aim s := by unfold acceptActOf; rw [hl]
+  refine wp_mono (execAccept_spec S U cfg aim s1) ?_ ?_
+  · intro st s2 ⟨_, _, _, _, _, hm⟩
+    rw [hact, hl] at hm
+    exact hm
+  · intro o s2 hE
+    rw [hact, hl] at hE
+    rcases hE with ⟨h1, h2⟩ | h3
+    · exact .inl ⟨h1, h2⟩
+    · exact .inr h3
+
+/-- **Incomplete**: a line break is inserted at the cursor (the line becomes exactly what
+    `LineBuffer::insert('\n', 1)` makes of it) and the read goes on.  For helpers that do not panic
+    (`hinterPanicAt = none`: the hinter is asked again once the line break is in; a panicking helper
+    is C16's business). -/
+theorem C13_incomplete_inserts_newline (S : Segmenter) (U : UData) (cfg : EdCfg) (aim : Bool) (s : Ed)
+    (r : Option Bool) (l : LB) (ns : List Notif)
+    (hh : cfg.hasHelper = true) (hv : cfg.validator s.line.buf = .incomplete)
+    (hnp : cfg.hinterPanicAt = none)
+    (hi : LB.insert S U '\n' 1 s.line = .ok (r, l, ns)) :
+    ∃ s', execute S U cfg (.acceptOrInsertLine aim) s = .ok (.proceed, s') ∧ s'.line = l := by
+  have hact : acceptActOf U cfg aim s = .insertNewline := by
+    unfold acceptActOf verdictOf; rw [if_pos hh, hv]; exact C13_table_incomplete aim _
+  have hw := C13_execute_by_action S U cfg aim s
+  unfold wp at hw
+  cases hx : execute S U cfg (.acceptOrInsertLine aim) s with
+  | ok p =>
+    obtain ⟨st, s'⟩ := p
+    rw [hx, hact] at hw
+    obtain ⟨rfl, r', ns', hi'⟩ := hw
+    rw [hi] at hi'
+    cases hi'
+    exact ⟨s', rfl, rfl⟩
+  | error p =>
+    obtain ⟨o, s'⟩ := p
+    rw [hx] at hw
+    rcases hw with ⟨_, ⟨_, _, h⟩ | ⟨_, _, h⟩ | ⟨_, _, _, e, h⟩⟩ | ⟨_, hne, _⟩
+    · rw [hv] at h; cases h
+    · rw [hv] at h; cases h
+    · rw [hi] at h; cases h
+    · exact absurd hnp hne
+
+/-- the insertion itself cannot fail from a state whose cursor is on a character boundary (C03);
+    helpers that do not panic -/
+theorem C13_incomplete_total (S : Segmenter) (U : UData) (cfg : EdCfg) (aim : Bool) (s : Ed)
+    (hwf : WF s.line) (hh : cfg.hasHelper = true) (hv : cfg.validator s.line.buf = .incomplete)
+    (hnp : cfg.hinterPanicAt = none) :
+    ∃ s' r ns, execute S U cfg (.acceptOrInsertLine aim) s = .ok (.proceed, s') ∧
+      LB.insert S U '\n' 1 s.line = .ok (r, s'.line, ns) := by
+  obtain ⟨r, l, ns, hi, _⟩ := C03_insert_total_wf S U '\n' 1 s.line hwf
+  obtain ⟨s', h1, h2⟩ := C13_incomplete_inserts_newline S U cfg aim s r l ns hh hv hnp hi
+  exact ⟨s', r, ns, h1, h2 ▸ hi⟩
+
+/-- **Invalid with a message**: the text (and cursor) is left unchanged and the read goes on. -/
+theorem C13_invalid_msg_keeps_text (S : Segmenter) (U : UData) (cfg : EdCfg) (aim : Bool) (s : Ed)
+    (hh : cfg.hasHelper = true) (hv : cfg.validator s.line.buf = .invalid true) :
+    ∃ s', execute S U cfg (.acceptOrInsertLine aim) s = .ok (.proceed, s') ∧ s'.line = s.line := by
+  have hact : acceptActOf U cfg aim s = .stay := by
+    unfold acceptActOf verdictOf; rw [if_pos hh, hv]; exact C13_table_invalid_msg aim _
+  have hw := C13_execute_by_action S U cfg aim s
+  unfold wp at hw
+  cases hx : execute S U cfg (.acceptOrInsertLine aim) s with
+  | ok p =>
+    obtain ⟨st, s'⟩ := p
+    rw [hx, hact] at hw
+    obtain ⟨rfl, hl⟩ := hw
+    exact ⟨s', rfl, hl⟩
+  | error p =>
+    obtain ⟨o, s'⟩ := p
+    rw [hx] at hw
+    rcases hw with ⟨_, ⟨_, _, h⟩ | ⟨_, _, h⟩ | ⟨_, _, h, _⟩⟩ | ⟨_, _, _, h⟩
+    · rw [hv] at h; cases h
+    · rw [hv] at h; cases h
+    · rw [hact] at h; cases h
+    · rw [hact] at h; cases h
+
+/-- **Validator error**: the step ends the read with the error outcome — never with a line, and
+    never by continuing to edit; the text is untouched. -/
+theorem C13_error_propagates (S : Segmenter) (U : UData) (cfg : EdCfg) (aim : Bool) (s : Ed)
+    (hh : cfg.hasHelper = true) (hv : cfg.validator s.line.buf = .error) :
+    ∃ s', execute S U cfg (.acceptOrInsertLine aim) s = .error (.helperError, s') ∧ s'.line = s.line := by
+  have hw := C13_execute_by_action S U cfg aim s
+  rw [execute_acceptOrInsertLine] at hw ⊢
+  -- the verdict is not an error on any normal return
+  have hw2 : wp (withPreAccept S U cfg (execAccept S U cfg aim)) (fun _ _ => False) (fun _ _ => True) s := by
+    refine wp_withPreAccept S U cfg fun s1 hc => ?_
+    obtain ⟨hl, _⟩ := Ed.core_eq hc
+    refine wp_mono (execAccept_spec S U cfg aim s1) ?_ (fun _ _ _ => trivial)
+    intro st s2 ⟨hne, _⟩
+    apply hne; unfold verdictOf; rw [if_pos hh, hl, hv]
+  unfold wp at hw hw2
+  cases hx : withPreAccept S U cfg (execAccept S U cfg aim) s with
+  | ok p => rw [hx] at hw2; exact hw2.elim
+  | error p =>
+    obtain ⟨o, s'⟩ := p
+    rw [hx] at hw
+    rcases hw with ⟨hl, ⟨ho, _, _⟩ | ⟨_, _, h⟩ | ⟨_, h, _⟩⟩ | ⟨_, _, h, _⟩
+    · subst ho; exact ⟨s', rfl, hl⟩
+    · rw [hv] at h; cases h
+    · exfalso
+      apply h; unfold verdictOf; rw [if_pos hh, hv]
+    · exfalso
+      apply h; unfold verdictOf; rw [if_pos hh, hv]
 
 /-- non-vacuity: every action of the table occurs -/
 example : acceptDecision true true false false = .submit ∧ acceptDecision false true false false = .insertNewline
